@@ -130,6 +130,25 @@ def generate(ctx):
                     ctx.add('%s %s' % (op, h), kind='malformed')
             if r.random() < 0.3:
                 ctx.add('traverse_check_string %s %s' % (h, gen.hexarg(r.choice([b'', b'a', e[8:10]]))), kind='malformed')
+    # the order in which traverse_check_string visits containers (a queue: level by level), seen through what happens
+    # first: a string that matches in a shallow right sibling against an out-of-bounds string / an unknown header kind /
+    # a short read deeper down on the left; and zero-length container entries that all point at the same offset
+    S = lambda b: ('s', b)
+    A = lambda *xs: ('a', list(xs))
+    for doc in (A(A(A(S(b'x'))), A(S(b'a'))), A(A(A(S(b'x')), S(b'q')), ('o', [(b'a', S(b'y'))])),
+                ('o', [(b'k', A(A(A(S(b'x'))))), (b'l', A(A(S(b'a'))))])):
+        e = gen.enc(doc)
+        i = e.index(bytes.fromhex('10000001') + b'x') if bytes.fromhex('10000001') + b'x' in e else e.index(bytes.fromhex('10000001'))
+        j = e.rindex(bytes.fromhex('80000001'), 0, i)
+        for m in (e[:i] + bytes.fromhex('100000ff') + e[i + 4:], e[:j] + bytes.fromhex('a0000001') + e[j + 4:],
+                  e[:j] + bytes.fromhex('9fffffff') + e[j + 4:], e[:i] + bytes.fromhex('50000000') + e[i + 4:]):
+            for needle in (b'a', b'x', b'q', b'y', b'zz', b''):
+                ctx.add('traverse_check_string %s %s' % (gen.hexarg(m), gen.hexarg(needle)), kind='malformed')
+    for k, d, tail in ((3, 4, b''), (4, 3, b''), (2, 6, bytes.fromhex('a0000000')), (3, 3, bytes.fromhex('8000000110000001') + b'a'),
+                       (3, 3, bytes.fromhex('8000000110000002') + b'a')):
+        m = b''.join((0x80000000 | k).to_bytes(4, 'big') + bytes.fromhex('50000000') * k for _ in range(d)) + tail
+        for needle in (b'a', b''):
+            ctx.add('traverse_check_string %s %s' % (gen.hexarg(m), gen.hexarg(needle)), kind='malformed')
 
 
 def judge(ctx):
